@@ -1043,7 +1043,11 @@ class DataFrameSchema(Generic[TDataObject], BaseSchema):
 
         # if drop is True as defaulted, drop the columns moved into the index
         if drop:
+            # a joint uniqueness constraint over a column that moves into the
+            # index stays declared: reset_index brings the column back
+            unique = new_schema.unique
             new_schema = new_schema.remove_columns(keys_temp)
+            new_schema.unique = unique
 
         return cast(Self, new_schema)
 
